@@ -141,8 +141,8 @@ def run_random_case(ctx, kind_, idx):
                 if knife:
                     ctx.discard("ratio_bound_within_rounding_of_a_sample")
                     return
-                xin, _k = gen.as_container(rng, x)
-                yin, _k2 = gen.as_container(rng, y)
+                xin, _k = gen.as_container(rng, x, allow=("array", "list", "int", "strided", "readonly", "tuple"))
+                yin, _k2 = gen.as_container(rng, y, allow=("array", "list", "int", "strided", "readonly", "tuple"))
                 info.update({"left": l, "right": r, "ratios": [lr, rr]})
                 gx, gy = truncate(xin, yin, l, r) if not (lr or rr) and rng.integers(0, 2) else truncate(xin, yin, l, r, lr, rr)
                 ctx.judged()
@@ -190,7 +190,20 @@ def run_random_case(ctx, kind_, idx):
                     ctx.discard("ratio_bound_within_rounding_of_a_sample")
                     return
                 info.update({"left": l, "right": r, "ratios": [lr, rr]})
+                la_, ra_ = l, r
+                if rng.integers(0, 4) == 0:
+                    # bounds computed with NumPy arrive as 0-d / 1-element arrays: mutable objects the call must not touch
+                    la_, ra_ = (np.asarray(float(l)), np.asarray(float(r))) if rng.integers(0, 2) else \
+                        (np.array([float(l)]), np.array([float(r)]))
+                    info["bounds_as_arrays"] = True
+                l, r = la_, ra_
                 wv.truncate_by_value(l, r) if not (lr or rr) and rng.integers(0, 2) else wv.truncate_by_value(l, r, lr, rr)
+                if info.get("bounds_as_arrays"):
+                    if float(np.ravel(l)[0]) != info["left"] or float(np.ravel(r)[0]) != info["right"]:
+                        ctx.judged()
+                        ctx.violation("bound_argument_modified", cid, {"case": info, "left_now": l, "right_now": r})
+                        return
+                    l, r = info["left"], info["right"]
                 ctx.judged()
                 ctx.monitor("c11:weaver_truncate")
                 for name, (gx, gy), (sx, sy) in (("working", wv.get(), (wx, wy)), ("reference", wv.get_reference(), (rx, ry))):
